@@ -132,3 +132,174 @@ def io_result(call):
         return False
     e = result_err_ty(call.dty) or ''
     return bool(re.search(r'(^|::)io::Error$|^std::io::Error$|error::Error$|nix::errno::Errno$|^Error$', e))
+
+
+# ---------------------------------------------------------------------------
+# Mandatory steps: a call that every successful path through a function must pass, except under named conditions
+
+def bypass_decisions(body, call_bb):
+    """switch blocks from which one successor still reaches `call_bb` while another reaches a return without it"""
+    rets = set(body.return_blocks())
+    out = []
+    can_reach_call = {x for x in range(len(body.blocks)) if call_bb in body.reachable(x)}
+    for d in body.live_blocks():
+        t = body.blocks[d]['term']
+        if t['k'] != 'switch' or d not in can_reach_call:
+            continue
+        succ = [x for x in dict.fromkeys(t['tgts']) if body.blocks[x]['term']['k'] != 'unreach']
+        to_call = [x for x in succ if x in can_reach_call or x == call_bb]
+        bypass = [x for x in succ if rets & body.reachable(x, avoid=[call_bb])]
+        # a successor that can do both is not decided here
+        pure_bypass = [x for x in bypass if x not in to_call or (rets & body.reachable(x, avoid=[call_bb]) and x != call_bb and call_bb not in body.reachable(x))]
+        pure_bypass = [x for x in succ if x != call_bb and call_bb not in body.reachable(x) and rets & body.reachable(x)]
+        if to_call and pure_bypass and d != call_bb:
+            out.append((d, pure_bypass))
+    return out
+
+
+def describe_switch(body, d):
+    from ..analysis import direct_field, direct_def
+    t = body.blocks[d]['term']
+    df = direct_field(body, t['op'])
+    if df:
+        return ('field', df[0])
+    dd = direct_def(body, t['op'])
+    if dd[0] == 'stmt' and dd[1]['rv']['k'] == 'disc':
+        p = dd[1]['rv']['p']
+        fs = [e[2] for e in p[1] if isinstance(e, list) and e[0] == 'F']
+        ty = body.local_ty(p[0])
+        if fs:
+            if fs[-1] in ('0', '1') or fs[-1].isdigit():
+                dl0 = direct_def(body, {'c': [p[0], []]})
+                if dl0[0] == 'call':
+                    return ('disc-call', dl0[1].path or dl0[1].decl)
+            return ('disc-field', fs[-1])
+        # discriminant of a local: what produced it?
+        dl = direct_def(body, {'c': [p[0], []]})
+        if dl[0] == 'call':
+            if dl[1].matches(r'as std::ops::Try>::branch$'):
+                return ('try', '?')
+            return ('disc-call', dl[1].path or dl[1].decl)
+        return ('disc', ty)
+    if dd[0] == 'call':
+        return ('call', dd[1].path or dd[1].decl)
+    if dd[0] == 'stmt' and dd[1]['rv']['k'] == 'bin':
+        return ('cmp', dd[1]['rv']['op'])
+    return (dd[0], '')
+
+
+def mandatory_step(ctx, rule, body, call, key, what, allowed_fields=(), allowed_calls=(), allow_err_return=True):
+    """Every path through `body` that returns successfully passes `call`, unless it leaves through a decision that is
+    (a) a `?`/Result test whose bypass side returns an error, (b) a test of one of `allowed_fields`, (c) a test on the
+    result of a call matching one of `allowed_calls` (e.g. an emptiness test, an iterator `next`)."""
+    from ..analysis import return_variants_from
+    bad = []
+    for d, bypass in bypass_decisions(body, call.bb):
+        kind, name = describe_switch(body, d)
+        if kind in ('field', 'disc-field') and name in allowed_fields:
+            continue
+        if kind in ('call', 'disc-call', 'disc') and any(re.search(rx, name) for rx in allowed_calls):
+            continue
+        if allow_err_return and kind in ('try', 'disc-call', 'disc', 'call'):
+            # bypass must return an error (or None for Option functions)
+            rv = set()
+            for x in bypass:
+                rv |= return_variants_from(body, x)
+            if rv and rv <= {'Err', 'None'}:
+                continue
+        bad.append((d, kind, name))
+    if bad:
+        d, kind, name = bad[0]
+        ctx.violation(rule, key, body.where(body.blocks[d]['term']['line']), '%s can be skipped: a path decided at line %s by %s `%s` returns without it' % (what, body.blocks[d]['term']['line'], kind, name))
+        return False
+    ctx.ok(rule, key, call.where(), '%s on every successful path%s' % (what, (' (skipped only under: %s)' % ', '.join(allowed_fields)) if allowed_fields else ''))
+    return True
+
+
+ITER_NEXT = r'Iterator>::next$|Iterator::next$'
+OPT_TRANSFORM = r'Option<transform::Transform>'
+
+# property -> list of (function, callee regex, which occurrence (index or None = all), what, allowed fields, allowed call/type regexes)
+MANDATORY = {
+    'C02': [
+        ('dedupe::partition', r'::retain$', 0, 'the regular-file filter', (), ()),
+        ('dedupe::partition', r'::retain$', 1, 'the length filter', ('no_check_size',), ()),
+        ('dedupe::partition', r'dedupe::was_modified$', 0, 'the modification check', ('modified_before',), ()),
+        ('dedupe::partition', r'FileSubGroup.*::group$', 0, 'sub-grouping', (), (r'dedupe::was_modified$',)),
+        ('dedupe::partition', r'::extend$', -1, 'the top-up of the retained set', (), (r'dedupe::was_modified$', r'::is_empty$')),
+        ('dedupe::dedupe::{closure#0}', r'dedupe::fetch_files_metadata$', 0, 'fetching the metadata of every member', (), ()),
+        ('dedupe::dedupe::{closure#0}', r'dedupe::partition$', 0, 'partition() of every group whose metadata could be read', (), (r'dedupe::fetch_files_metadata$', ITER_NEXT)),
+    ],
+    'C03': [
+        ('group::rehash', r'group::partition_by_devices$', 0, 'handing the accepted groups to the hashing threads', (), ()),
+        ('group::rehash', r'::chain$', 0, 'chaining the passed-through groups', (), ()),
+        ('group::rehash', r'::filter$', 0, 'the stage post-filter', (), ()),
+        ('group::group_files', r'^group::scan_files$', 0, 'the directory scan', (), ()),
+        ('group::group_files', r'^group::group_by_size$', 0, 'grouping by size', (), (OPT_TRANSFORM,)),
+        ('group::group_files', r'^group::remove_same_files$', 0, 'removal of repeated paths', (), (OPT_TRANSFORM,)),
+        ('group::group_files', r'^group::deduplicate$', 0, 'removal of repeated paths (transform branch)', (), (OPT_TRANSFORM,)),
+        ('group::group_files', r'^group::group_by_prefix$', 0, 'the prefix stage', (), (OPT_TRANSFORM,)),
+        ('group::group_files', r'^group::group_by_suffix$', 0, 'the suffix stage', (), (OPT_TRANSFORM,)),
+        ('group::group_files', r'^group::group_by_contents$', 0, 'the contents stage', ('skip_content_hash',), (OPT_TRANSFORM,)),
+        ('group::group_files', r'^group::group_transformed$', 0, 'grouping of transformed files', (), (OPT_TRANSFORM,)),
+    ],
+    'C09': [
+        ('group::scan_files', r"walk::Walk::<'a>::run$", 0, 'the directory walk', (), ()),
+        ('group::scan_files::{closure#1}', r'::filter$', 0, 'the size filter', (), ()),
+        ("walk::Walk::<'a>::visit_entry", r"Walk::<'a>::visit_file$", 0, 'visiting a file entry', ('hidden', 'follow_links', 'no_ignore', 'tpe'), (r'::starts_with$', r'DashSet.*::insert$', r'IgnoreStack::matches$', r'file_name_cstr$')),
+        ("walk::Walk::<'a>::visit_entry", r"Walk::<'a>::visit_dir$", 0, 'visiting a directory entry', ('hidden', 'follow_links', 'no_ignore', 'tpe'), (r'::starts_with$', r'DashSet.*::insert$', r'IgnoreStack::matches$', r'file_name_cstr$')),
+        ("walk::Walk::<'a>::visit_entry", r"Walk::<'a>::visit_link$", 0, 'visiting a link entry', ('hidden', 'follow_links', 'no_ignore', 'tpe'), (r'::starts_with$', r'DashSet.*::insert$', r'IgnoreStack::matches$', r'file_name_cstr$')),
+        ("walk::Walk::<'a>::visit_file", r'Fn.*::call$|FnOnce::call_once$|FnMut::call_mut$', 0, 'reporting a file', (), (r'PathSelector::matches_full_path$',)),
+    ],
+    'C12': [
+        ("hasher::FileHasher::<'_>::hash_file", r'::load_hash$', 0, 'the cache lookup', (), ()),
+        ("hasher::FileHasher::<'_>::hash_file", r'::store_hash$', 0, 'storing the computed hash', (), (r'::load_hash$',)),
+        ("hasher::FileHasher::<'_>::hash_transformed", r'::load_hash$', 0, 'the cache lookup', (), ()),
+        ("hasher::FileHasher::<'_>::hash_transformed", r'::store_hash$', 0, 'storing the computed hash', (), (r'::load_hash$', r'ExitStatus::success$', r'ExitStatus::code$')),
+    ],
+    'C13': [
+        ('group::group_files', r'par_sort_by_key$|sort_by_key$', 0, 'the final ordering of groups', (), ()),
+        ('group::group_files', r'for_each$', 0, 'the per-group path sort', (), ()),
+    ],
+    'C14': [
+        ('group::write_report_with_timestamp', r'ReportWriter.*::write$', None, 'writing the report', (), (r'Option<std::path::PathBuf>',)),
+    ],
+    'C10': [
+        ('<report::TextReportIterator<R> as fallible_iterator::FallibleIterator>::next', r'::read_paths$', 0, 'reading the announced paths of a group', ('stopped_on_error',), (r'::read_group_header$',)),
+    ],
+    'C11': [
+        ('dedupe::log_script::{closure#0}', r'PriorityQueue.*::push$', 0, 'queueing a received group', (), (r'Receiver.*::recv$',)),
+    ],
+    'C15': [
+        ("walk::Walk::<'a>::visit_dir", r"Walk::<'a>::log_warn$", 0, 'the warning for an unreadable directory', (), None),
+    ],
+}
+
+
+def run_mandatory(ctx, prop):
+    rule = '%s.M' % prop
+    lib = ctx.lib
+    n = 0
+    for (fn, rx, occ, what, fields, calls) in MANDATORY.get(prop, []):
+        b = lib.body(fn)
+        if b is None:
+            ctx.missing(rule, 'fn ' + fn)
+            continue
+        cs = sorted(b.calls(rx), key=lambda c: (c.line, c.bb))
+        if calls is None:
+            # only presence is required (the call sits on an error arm by design)
+            ctx.check(bool(cs), rule, '%s|%s' % (fn, what), (cs[0].where() if cs else b.where()), '%s is present' % what, '%s is gone' % what)
+            n += 1
+            continue
+        if not cs or (occ is not None and occ >= 0 and occ >= len(cs)):
+            ctx.missing(rule, '%s (%s) in %s' % (what, rx, fn), b.where())
+            continue
+        sel = cs if occ is None else [cs[occ]]
+        for c in sel:
+            n += 1
+            ctx.fn(b)
+            mandatory_step(ctx, rule, b, c, '%s|%s%s' % (fn, what, ('@%d' % c.line) if occ is None else ''), what, allowed_fields=fields, allowed_calls=calls)
+    return n
+
+
+MANDATORY_TEXT = 'mandatory steps: each listed step lies on every successful path of its function; the complete set of conditions under which it may be skipped is pinned (option flags named in the table, `?`/error returns, iterator exhaustion) - any additional skipping condition is a violation'
